@@ -10,7 +10,7 @@ SimInit == dts = DTS /\ shape = [w \in W |-> "ok"] /\ InitRest /\ hist = ""
 Tag(s, w) == hist' = hist \o s \o ToString(w) \o " "
 SimNext ==
   \/ \E w \in W : WSend(w) /\ Tag("S", w)
-  \/ \E w \in W : (WReturn(w) \/ WCreate(w) \/ WRegister(w) \/ WDrop(w)) /\ UNCHANGED hist
+  \/ \E w \in W : (WReturn(w) \/ WCreate(w) \/ WCreateRefused(w) \/ WRegister(w) \/ WDrop(w)) /\ UNCHANGED hist
   \/ \E w \in W : CDequeue(w) /\ Tag("R", w)
   \/ \E w \in W : CDisc(w) /\ Tag("R", w)
   \/ (CEnterSel \/ CNone \/ CProcess \/ CAfter \/ ProcExit \/ CExitEarly) /\ UNCHANGED hist
